@@ -26,3 +26,22 @@ func Point(name string) {
 		(*f)(name)
 	}
 }
+
+var eventHook atomic.Pointer[func(obj interface{}, name string, id uint64)]
+
+// SetEventHook installs (or, with nil, removes) the callback invoked by Event.
+func SetEventHook(f func(obj interface{}, name string, id uint64)) {
+	if f == nil {
+		eventHook.Store(nil)
+		return
+	}
+	eventHook.Store(&f)
+}
+
+// Event reports a named protocol event of obj (for example a manager) with a
+// numeric argument. It is a no-op unless a hook is installed.
+func Event(obj interface{}, name string, id uint64) {
+	if f := eventHook.Load(); f != nil {
+		(*f)(obj, name, id)
+	}
+}
